@@ -55,8 +55,20 @@ def completed_options(rec):
 
 
 def feas_tol(rec):
-    return float(completed_options(rec).get(
-        "feasibility_tol", math.sqrt(EPS)))
+    """The tolerance the USER stated (documented default otherwise) - not
+    the value found in the solver's completed options, which is code under
+    test (C19 checks that the two agree)."""
+    spec_opts = (getattr(rec, "spec", None) or {}).get("options") or {}
+    if "feasibility_tol" in spec_opts:
+        try:
+            return float(spec_opts["feasibility_tol"])
+        except (TypeError, ValueError):
+            pass
+    b = getattr(rec, "built", None)
+    if b is not None and getattr(b, "options", None) and \
+            "feasibility_tol" in b.options:
+        return float(b.options["feasibility_tol"])
+    return math.sqrt(EPS)
 
 
 def user_of(rec, pb, x):
@@ -72,6 +84,24 @@ def user_of(rec, pb, x):
     if y is None:
         return np.array(pb.build_x(x), dtype=float)
     return y
+
+
+def stated(rec, key, default):
+    """A setting as the USER stated it (spec / arguments), else the
+    documented default - never the solver's own completed dictionary."""
+    spec_opts = (getattr(rec, "spec", None) or {}).get("options") or {}
+    if key in spec_opts:
+        try:
+            return float(spec_opts[key])
+        except (TypeError, ValueError):
+            pass
+    b = getattr(rec, "built", None)
+    if b is not None and getattr(b, "options", None) and key in b.options:
+        try:
+            return float(b.options[key])
+        except (TypeError, ValueError):
+            pass
+    return default
 
 
 def eval_table(rec):
@@ -763,7 +793,7 @@ def o_c07(rec, table=None):
                          f"{None if tr is None else tr.resolution} > "
                          f"radius_final {rf}"))
     elif st == 1:
-        target = o.get("target", -math.inf)
+        target = stated(rec, "target", -math.inf)
         if not (res.fun <= target):
             out.append(V("status1_target", f"status 1 but fun={res.fun} > "
                                            f"target={target}"))
@@ -803,7 +833,7 @@ def o_c07(rec, table=None):
     elif st == -1:
         if consistent_bounds(b):
             out.append(V("status-1_bounds", "status -1 but lb <= ub holds"))
-    _beyond_barrier(out, float(o.get("target", -math.inf)))
+    _beyond_barrier(out, stated(rec, "target", -math.inf))
     if res.get("success"):
         if st not in (0, 1, 2, 3, 4):
             out.append(V("success_status", f"success with status {st}"))
@@ -907,7 +937,7 @@ def o_c09(rec, table=None):
     degenerate = rec.run.tr is None and res.status in (2, -1)
     table = table if table is not None else eval_table(rec)
     tol = feas_tol(rec)
-    target = float(o.get("target", -math.inf))
+    target = stated(rec, "target", -math.inf)
     first = None
     for r in table:
         if not r["ok"]:
